@@ -44,8 +44,12 @@ def explore_session(ck, name, args, bound, exe, deadline, variant_env=None):
         if res["rc"] == 6:
             return  # divergence handled below (hard error)
         if res["timeout"]:
-            ck.violation("C04:timeout@%s" % name, "schedule [%s] did not finish within the watchdog" % devs, rep)
-            return
+            # under the scheduler a genuine hang is a detected deadlock / livelock; a wall-clock timeout first gets a second run alone with a long limit
+            res = schedlib.run_schedule(exe, argv, res["devs"], env, 1500, policy=res.get("policy", 0), stalls=res.get("stalls") or ())
+            state["timeout_reruns"] = state.get("timeout_reruns", 0) + 1
+            if res["timeout"]:
+                ck.violation("C04:timeout@%s" % name, "schedule [%s] did not finish within 300 s nor, run alone, within 1500 s" % devs, rep)
+                return
         out = res.get("out") or {}
         if res["rc"] == 3 or out.get("deadlock") or out.get("livelock"):
             ck.violation("C04:deadlock@%s" % name, "schedule [%s] deadlocks: %s" % (devs, json.dumps(out)[:300]), rep)
